@@ -444,8 +444,9 @@ class SubRoutine(GlobalValue):
 
         for block in unreachable:
             # Important! Loop over successors first, since last instruction
-            # determines the successors:
-            for successor in block.successors:
+            # determines the successors (each once, a conditional jump may
+            # have the same block as both of its targets):
+            for successor in dict.fromkeys(block.successors):
                 self.logger.debug("updating successor %s", successor)
                 for phi in successor.phis:
                     self.logger.debug("updating phi %s", phi)
@@ -1344,7 +1345,9 @@ class JumpBase(FinalInstruction):
         """Clear references"""
         while self._block_map:
             _, block = self._block_map.popitem()
-            block.references.remove(self)
+            # A block can be the target more than once (cjmp a < b ? x : x):
+            if block not in self._block_map.values():
+                block.references.remove(self)
 
     @property
     def targets(self):
